@@ -12,3 +12,32 @@ package stringutil
 // C01: a word counter is always selected (callers dereference it through the interface).
 //@ func SelectWordCounter(text)
 //@   ensures result != nil
+//@   ensures [C09] #counter-follows-the-scripts-of-the-text typeis(result, FullWordCounter) == rxFullWordCounter.MatchString(text) &&
+//@              typeis(result, LetterWordCounter) == (!rxFullWordCounter.MatchString(text) && rxLetterWordCounter.MatchString(text)) &&
+//@              typeis(result, FastWordCounter) == (!rxFullWordCounter.MatchString(text) && !rxLetterWordCounter.MatchString(text))
+
+// C16: host and prefix comparisons "ignoring case" compare the lower-cased strings (the host test of the
+// pagination finders relies on it).
+//@ func EqualsIgnoreCase(str1, str2)
+//@   assigns nothing
+//@   ensures [C16] #equal-after-lower-casing result == (strings.ToLower(str1) == strings.ToLower(str2))
+
+//@ func HasPrefixIgnoreCase(str, prefix)
+//@   assigns nothing
+//@   ensures [C16] #prefix-after-lower-casing result == hasPrefix(strings.ToLower(str), strings.ToLower(prefix))
+
+// The interface contract of WordCounter.Count (/verif/specs/go.spec) treats a count as a function of the
+// counter and the text: the implementations write nothing except the fresh match lists of the regexp package.
+//@ func (FullWordCounter).Count(text)
+//@   assigns nothing
+//@   fresh_assigns elems(string)
+
+//@ func (LetterWordCounter).Count(text)
+//@   assigns nothing
+//@   fresh_assigns elems(string)
+//@   ensures result >= 0
+
+//@ func (FastWordCounter).Count(text)
+//@   assigns nothing
+//@   fresh_assigns elems(string)
+//@   ensures result >= 0
